@@ -1,4 +1,5 @@
 import OdfProofs.Transform
+import OdfProofs.TableBulk
 
 /-! The run-length `Table.rstrip` refines its grid spec (C17): `absT (tblRstrip emp t) = gridRstrip emp (absT t)`. -/
 namespace Odf.Transform
@@ -346,5 +347,96 @@ theorem tblRstrip_inv (emp : Nat → Bool) (t : Tbl) (h : Inv t) : Inv (tblRstri
           exact ⟨r0, hr0mem, rfl⟩) 0
       omega
     · exact hcne
+
+/-! ### transpose: the run-length table built by `Table.transpose()` denotes the transposed grid -/
+
+theorem expand_unit_rows (rows : List (List Nat)) :
+    (expand (rows.map (fun r => (r.map (fun c => (c, 1)), 1)))).map expand = rows := by
+  induction rows with
+  | nil => rfl
+  | cons r rest ih =>
+    simp only [List.map_cons, expand_cons, List.replicate_one, List.singleton_append]
+    rw [ih, Table.expand_units]
+
+theorem tblTranspose_refines (t : Tbl) : absT (tblTranspose t) = transposeG (absT t) := by
+  unfold tblTranspose
+  generalize transposeG (absT t) = g
+  obtain ⟨nc, rows⟩ := g
+  unfold absT
+  simp only [fresh]
+  rw [expand_unit_rows]
+  congr 1
+  by_cases h0 : nc = 0
+  · simp [h0]
+  · simp [h0]
+
+theorem tblTranspose_inv (t : Tbl) : Inv (tblTranspose t) := by
+  unfold tblTranspose
+  simp only
+  refine ⟨⟨rfl, ?_⟩, ⟨rfl, ?_⟩, ?_, ?_⟩
+  · simp only [fresh]
+    split
+    · intro q hq; simp at hq
+    · rename_i hne
+      intro q hq
+      simp only [List.mem_singleton] at hq
+      subst hq
+      simp only
+      omega
+  · intro q hq
+    simp only [fresh, List.mem_map] at hq
+    obtain ⟨r, _, rfl⟩ := hq
+    simp
+  · intro q hq
+    simp only [fresh, List.mem_map] at hq
+    obtain ⟨r, _, rfl⟩ := hq
+    intro c hc
+    simp only [List.mem_map] at hc
+    obtain ⟨v, _, rfl⟩ := hc
+    simp
+  · intro hne
+    simp only [fresh] at hne ⊢
+    have hrows : (transposeG (absT t)).rows ≠ [] := by
+      intro hc; apply hne; rw [hc]; rfl
+    have hnc : (transposeG (absT t)).ncols ≠ 0 := by
+      unfold transposeG at hrows ⊢
+      simp only at hrows ⊢
+      rw [if_neg hrows]
+      omega
+    rw [if_neg hnc]
+    simp
+
+/-! ### no row wider than the declared columns, after the two transformations -/
+
+theorem fit_gridRstrip (emp : Nat → Bool) (g : Grid) (hfit : Table.GridFit g) : Table.GridFit (gridRstrip emp g) := by
+  intro row hrow
+  unfold gridRstrip at hrow ⊢
+  simp only at hrow ⊢
+  obtain ⟨r, hr, rfl⟩ := List.mem_map.mp hrow
+  have hr_in : r ∈ g.rows := by
+    obtain ⟨suf, e, _⟩ := rstripList_split (fun (r : List Nat) => r.all emp) g.rows
+    rw [e]; simp [hr]
+  have h1 : (rstripList emp r).length ≤ r.length := by
+    obtain ⟨suf, e, _⟩ := rstripList_split emp r
+    have := congrArg List.length e
+    simp only [List.length_append] at this
+    omega
+  have h2 := hfit r hr_in
+  have h3 : (rstripList emp r).length ≤
+      ((List.map (rstripList emp) (rstripList (fun r => r.all emp) g.rows)).map List.length).foldl max 0 :=
+    len_le_maxLen _ _ (List.mem_map.mpr ⟨r, hr, rfl⟩)
+  omega
+
+theorem fit_transposeG (g : Grid) : Table.GridFit (transposeG g) := by
+  intro row hrow
+  unfold transposeG at hrow ⊢
+  simp only at hrow ⊢
+  have hne : transposePad g.rows ≠ [] := List.ne_nil_of_mem hrow
+  rw [if_neg hne]
+  unfold transposePad at hrow
+  simp only [List.mem_map] at hrow
+  obtain ⟨k, _, rfl⟩ := hrow
+  simp only [List.length_map]
+  omega
 
 end Odf.Transform
